@@ -444,8 +444,6 @@ MUTANTS = [
            lambda f, t: replace_stmt(f, lambda s: u(s).startswith("self.tracked_resources"), stmts("self.tracked_resources = _NO_RESOURCES"))),
     Mutant("C14", "sql-setitem-writes-key-instead-of-uri", "C14-R10", NSV, "SqlStorage.__setitem__",
            lambda f, t: replace_expr(f, lambda e: u(e) == "(key, uri)", "(key, key)"), also=("C19",)),
-    Mutant("C15", "sql-getitem-without-read-transaction", "C15-R3", NSV, "SqlStorage.__getitem__",
-           lambda f, t: delete_stmt(f, lambda s: isinstance(s, ast.Expr) and "BEGIN" in u(s))),
     Mutant("C16", "class_to_dict-detaches-the-object", "C16-R7", SER, "SerializerBase.class_to_dict",
            lambda f, t: f.body.insert(1, stmts("if hasattr(obj, '_pyroDaemon'):\n    obj._pyroDaemon = None")[0])),
     Mutant("C16", "nothing-exposed-test-ignores-attributes", "C16-R9", C, "Proxy.__processMetadata",
@@ -538,6 +536,30 @@ MUTANTS = [
            lambda f, t: delete_stmt(f, lambda s: u(s) == "exc_value._pyroTraceback = tbinfo", count=1)),
     Mutant("C07", "error-reply-not-sent", "C07-R3", S, "Daemon._sendExceptionResponse",
            lambda f, t: delete_stmt(f, lambda s: u(s) == "connection.send(msg.data)")),
+    # ---- round-5 rules
+    Mutant("C11", "batchproxy-copy-shares-the-call-list", "C11-R4", C, "BatchProxy.__copy__",
+           lambda f, t: replace_expr(f, lambda e: u(e) == "list(self.__calls)", "self.__calls")),
+    Mutant("C09", "session-table-written-under-another-key", "C09-R3", S, "Daemon._getInstance",
+           lambda f, t: replace_stmt(f, lambda s: u(s) == "conn.pyroInstances[clazz] = instance", stmts("conn.pyroInstances[type(instance)] = instance"))),
+    Mutant("C04", "class-tag-tested-by-truthiness", "C04-R1", SER, "SerializerBase.recreate_classes",
+           lambda f, t: set_test(f, lambda e: u(e) == "'__class__' in literal", "literal.get('__class__')")),
+    Mutant("C16", "falsy-weak-object-reported-dead", "C16-R6", S, "_unpack_weakref",
+           lambda f, t: set_test(f, lambda e: u(e) == "ret is None", "not ret")),
+    Mutant("C16", "blob-annotation-names-the-uri-object", "C16-R3", C, "Proxy.__serializeBlobArgs",
+           lambda f, t: replace_expr(f, lambda e: u(e) == "(blob.info, objectId, methodname)", "(blob.info, self._pyroUri.object, methodname)")),
+    Mutant("C19", "metadata-tags-joined-with-blank", "C19-R3", CO, "URI.__str__",
+           lambda f, t: replace_expr(f, lambda e: isinstance(e, ast.Constant) and e.value == ",", "', '")),
+    Mutant("C15", "nsc-register-not-safe", "C15-R4", "Pyro5/nsc.py", "handle_command.cmd_register",
+           lambda f, t: [setattr(c, "keywords", []) for c in ast.walk(f) if isinstance(c, ast.Call) and u(c.func) == "namesrv.register"]),
+    Mutant("C14", "nsc-yplookup-all-asks-any", "C14-R11", "Pyro5/nsc.py", "handle_command.cmd_yplookup_all",
+           lambda f, t: [setattr(k, "arg", "meta_any") for c in ast.walk(f) if isinstance(c, ast.Call) for k in c.keywords if k.arg == "meta_all"]),
+    Mutant("C05", "any-accept-error-ends-the-multiplex-loop", "C05-R1b", MX, "SocketServer_Multiplex._handleConnection",
+           lambda f, t: set_test(f, lambda e: "ERRNO_BADF" in u(e), "err not in socketutil.ERRNO_RETRIES")),
+    Mutant("C10", "stream-close-helper-is-a-bare-proxy", "C10-R6", C, "_StreamResultIterator.close",
+           lambda f, t: replace_expr(f, lambda e: u(e) == "self.proxy.__copy__()", "Proxy(self.proxy._pyroUri)")),
+    Mutant("C18", "deny-log-line-indexes-the-peer-address", "C18-R3", ST, "ClientConnectionJob.denyConnection",
+           lambda f, t: replace_stmt(f, lambda s: isinstance(s, ast.Expr) and "client connection was denied" in u(s),
+                                     stmts("log.warning('client connection from %s was denied: %s', self.caddr[0], reason)"))),
     Mutant("C01", "marshal-call-envelope-swapped", "C01-R7", SER, "MarshalSerializer.dumpsCall",
            lambda f, t: replace_expr(f, lambda e: u(e) == "(obj, method, vargs, kwargs)", "(obj, method, kwargs, vargs)")),
     Mutant("C01", "json-call-envelope-key-mismatch", "C01-R7", SER, "JsonSerializer.loadsCall",
